@@ -3388,9 +3388,21 @@ func signedIntValueParser[ValueType Value, IntType any](
 	}
 }
 
+// default implementation for parsing a given signed numeric type represented by a big.Int from a string.
+// input strings may begin with a '+' or '-', like for signedIntValueParser.
+func bigIntValueParser(convert func(*big.Int) (Value, bool)) StringValueParser {
+	return newBigIntValueParser(convert, true)
+}
+
+// default implementation for parsing a given unsigned numeric type represented by a big.Int from a string.
+// input strings must not begin with a '+' or '-', like for unsignedIntValueParser.
+func unsignedBigIntValueParser(convert func(*big.Int) (Value, bool)) StringValueParser {
+	return newBigIntValueParser(convert, false)
+}
+
 // No need to use metered constructors for values represented by big.Ints,
 // since estimation is more granular than fixed-size types.
-func bigIntValueParser(convert func(*big.Int) (Value, bool)) StringValueParser {
+func newBigIntValueParser(convert func(*big.Int) (Value, bool), allowSign bool) StringValueParser {
 	return func(gauge common.Gauge, input string) OptionalValue {
 
 		literalKind := common.IntegerLiteralKindDecimal
@@ -3404,6 +3416,11 @@ func bigIntValueParser(convert func(*big.Int) (Value, bool)) StringValueParser {
 				Intensity: uint64(len(input)),
 			},
 		)
+
+		// big.Int.SetString accepts an optional sign
+		if !allowSign && len(input) > 0 && (input[0] == '+' || input[0] == '-') {
+			return NilOptionalValue
+		}
 
 		val, ok := new(big.Int).SetString(input, literalKind.Base())
 		if !ok {
@@ -3489,7 +3506,7 @@ var StringValueParsers = func() map[string]TypedStringValueParser {
 		},
 		{
 			ReceiverType: sema.UInt128Type,
-			Parser: bigIntValueParser(func(b *big.Int) (v Value, ok bool) {
+			Parser: unsignedBigIntValueParser(func(b *big.Int) (v Value, ok bool) {
 				if ok = inRange(b, sema.UInt128TypeMinIntBig, sema.UInt128TypeMaxIntBig); ok {
 					v = NewUnmeteredUInt128ValueFromBigInt(b)
 				}
@@ -3498,7 +3515,7 @@ var StringValueParsers = func() map[string]TypedStringValueParser {
 		},
 		{
 			ReceiverType: sema.UInt256Type,
-			Parser: bigIntValueParser(func(b *big.Int) (v Value, ok bool) {
+			Parser: unsignedBigIntValueParser(func(b *big.Int) (v Value, ok bool) {
 				if ok = inRange(b, sema.UInt256TypeMinIntBig, sema.UInt256TypeMaxIntBig); ok {
 					v = NewUnmeteredUInt256ValueFromBigInt(b)
 				}
@@ -3507,7 +3524,7 @@ var StringValueParsers = func() map[string]TypedStringValueParser {
 		},
 		{
 			ReceiverType: sema.UIntType,
-			Parser: bigIntValueParser(func(b *big.Int) (Value, bool) {
+			Parser: unsignedBigIntValueParser(func(b *big.Int) (Value, bool) {
 				return NewUnmeteredUIntValueFromBigInt(b), true
 			}),
 		},
@@ -3531,7 +3548,7 @@ var StringValueParsers = func() map[string]TypedStringValueParser {
 		},
 		{
 			ReceiverType: sema.Word128Type,
-			Parser: bigIntValueParser(func(b *big.Int) (v Value, ok bool) {
+			Parser: unsignedBigIntValueParser(func(b *big.Int) (v Value, ok bool) {
 				if ok = inRange(b, sema.Word128TypeMinIntBig, sema.Word128TypeMaxIntBig); ok {
 					v = NewUnmeteredWord128ValueFromBigInt(b)
 				}
@@ -3540,7 +3557,7 @@ var StringValueParsers = func() map[string]TypedStringValueParser {
 		},
 		{
 			ReceiverType: sema.Word256Type,
-			Parser: bigIntValueParser(func(b *big.Int) (v Value, ok bool) {
+			Parser: unsignedBigIntValueParser(func(b *big.Int) (v Value, ok bool) {
 				if ok = inRange(b, sema.Word256TypeMinIntBig, sema.Word256TypeMaxIntBig); ok {
 					v = NewUnmeteredWord256ValueFromBigInt(b)
 				}
